@@ -117,10 +117,15 @@ pub fn compile(db: &mut RootDatabase, path: &Path, cfg: &Config) -> Result<Compi
     }))
     .map_err(|e| CompileError::Internal(format!("compiler panicked: {e} at {}", vcommon::last_panic_location())))?
     .ok_or_else(|| CompileError::Internal("no sierra program".into()))?;
-    let mut sierra = prog.program;
-    let replacer = DebugReplacer { db };
-    replacer.enrich_function_names(&mut sierra);
-    let sierra = replacer.apply(&sierra);
+    let sierra = vcommon::catch(std::panic::AssertUnwindSafe(|| {
+        let mut sierra = prog.program.clone();
+        let replacer = DebugReplacer { db };
+        replacer.enrich_function_names(&mut sierra);
+        replacer.apply(&sierra)
+    }))
+    .map_err(|e| {
+        CompileError::Internal(format!("debug naming panicked: {e} at {}", vcommon::last_panic_location()))
+    })?;
     let n = sierra.statements.len();
     let meta = cfg.gas.map(|s| MetadataComputationConfig {
         linear_gas_solver: s == Solver::Linear,
